@@ -1,4 +1,5 @@
 import GeomV.C11.LemmasTree
+import GeomV.C11.LemmasHeur
 /-
 C11 — property theorems.  All of them hold for ARBITRARY in-range choice functions `H`
 (`Heur.InRange`), hence for the Go heuristics (`C11_goHeur_inRange`), for their floating-point
@@ -177,5 +178,100 @@ theorem C11_delete_present [DecidableEq O] [Bounded O] {H : Heur} (hH : H.InRang
   · simpa [Tree.abs, c3] using hperm'
   · simp only [Tree.abs] at hlen hsz ⊢
     rw [g5, hsz]; omega
+
+/-- one step of a history: never faults, keeps the invariant, follows the multiset semantics, and
+`Delete` answers `true` exactly for stored objects -/
+theorem C11_step [DecidableEq O] [Bounded O] {H : Heur} (hH : H.InRange) (t : Tree O) (hI : t.Inv)
+    (s : List O) (hs : t.abs.Perm s) (op : Op O) :
+    ∃ t' r, t.step H op = .ok (t', r) ∧ t'.Inv ∧ t'.abs.Perm (specStep s op) ∧
+      t'.minC = t.minC ∧ t'.maxC = t.maxC ∧
+      r = (match op with | .ins _ => none | .del o => some (specDeleteResult s o)) ∧
+      (r = some false → t' = t) := by
+  cases op with
+  | ins o =>
+    obtain ⟨t', h1, h2, h3, h4, h5, h6⟩ := C11_insert hH t hI o
+    refine ⟨t', none, ?_, h2, ?_, h5, h6, rfl, by simp⟩
+    · simp [Tree.step, h1, bind, Except.bind, pure, Except.pure]
+    · exact h3.trans (List.Perm.cons _ hs)
+  | del o =>
+    by_cases ho : o ∈ t.abs
+    · obtain ⟨t', h1, h2, h3, h4, h5, h6⟩ := C11_delete_present hH t hI o ho
+      refine ⟨t', some true, ?_, h2, ?_, h5, h6, ?_, by simp⟩
+      · simp [Tree.step, h1, bind, Except.bind, pure, Except.pure]
+      · exact h3.trans (hs.erase o)
+      · simp [specDeleteResult, hs.mem_iff.mp ho]
+    · have h1 := C11_delete_absent (H := H) t hI o ho
+      have ho' : o ∉ s := fun h => ho (hs.mem_iff.mpr h)
+      refine ⟨t, some false, ?_, hI, ?_, rfl, rfl, ?_, fun _ => rfl⟩
+      · simp [Tree.step, h1, bind, Except.bind, pure, Except.pure]
+      · simpa [specStep, List.erase_of_not_mem ho'] using hs
+      · simp [specDeleteResult, ho']
+
+/-- histories from any state satisfying the invariant -/
+theorem C11_run [DecidableEq O] [Bounded O] {H : Heur} (hH : H.InRange) :
+    ∀ (ops : List (Op O)) (t : Tree O), t.Inv → ∀ (s : List O), t.abs.Perm s →
+      ∃ t', runOps H t ops = .ok t' ∧ t'.Inv ∧ t'.abs.Perm (ops.foldl specStep s) ∧
+        t'.minC = t.minC ∧ t'.maxC = t.maxC
+  | [], t, hI, s, hs => ⟨t, rfl, hI, hs, rfl, rfl⟩
+  | op :: ops, t, hI, s, hs => by
+    obtain ⟨t1, r, h1, h2, h3, h4, h5, _⟩ := C11_step hH t hI s hs op
+    obtain ⟨t2, g1, g2, g3, g4, g5⟩ := C11_run hH ops t1 h2 _ h3
+    refine ⟨t2, ?_, g2, g3, by omega, by omega⟩
+    simp [runOps, h1, g1, bind, Except.bind]
+
+/-- **C11_reachable** — for every history of Insert/Delete calls of any length, from `NewTree(min,
+max)`: no call panics; the final tree satisfies the invariant (all leaves at depth `Depth`, stored
+levels right, every entry box the exact envelope of its subtree, fan-out ≤ Max); the stored
+objects are the multiset semantics of the history; `Size` is their number. -/
+theorem C11_reachable [DecidableEq O] [Bounded O] {H : Heur} (hH : H.InRange) (minC maxC : Nat)
+    (h1 : 1 ≤ minC) (h2 : 2 ≤ maxC) (ops : List (Op O)) :
+    ∃ t, runOps H (newTree minC maxC) ops = .ok t ∧ t.Inv ∧ t.WF = true ∧
+      t.abs.Perm (specRun ops) ∧ t.size = (specRun ops).length ∧
+      wfNode maxC t.depth t.root = true := by
+  obtain ⟨hI, habs, _, _⟩ := C11_init (O := O) minC maxC h1 h2
+  obtain ⟨t, g1, g2, g3, g4, g5⟩ := C11_run hH ops (newTree minC maxC) hI [] (by rw [habs])
+  have hwf := (Tree.WF_iff t).mp g2.wf
+  refine ⟨t, g1, g2, g2.wf, g3, ?_, ?_⟩
+  · rw [hwf.2]; exact g3.length_eq
+  · have : t.maxC = maxC := g5
+    rw [← this]; exact hwf.1
+
+/-- **C11_search_reachable** — the headline: after any history, `SearchIntersect(q)` returns
+exactly (as a multiset) the brute-force scan of the objects the history has stored. -/
+theorem C11_search_reachable [DecidableEq O] [Bounded O] {H : Heur} (hH : H.InRange) (minC maxC : Nat)
+    (h1 : 1 ≤ minC) (h2 : 2 ≤ maxC) (ops : List (Op O)) (q : Box) (hq : q.valid = true)
+    (hobj : ∀ o : O, (Bounded.bounds o).valid = true) :
+    ∃ t res, runOps H (newTree minC maxC) ops = .ok t ∧ t.search q = .ok res ∧
+      res.Perm (specSearch (specRun ops) q) := by
+  obtain ⟨t, g1, g2, g3, g4, _⟩ := C11_reachable hH minC maxC h1 h2 ops
+  obtain ⟨s1, _⟩ := C11_search t g3 q hq (fun o _ => hobj o)
+  exact ⟨t, _, g1, s1, g4.filter _⟩
+
+/-- **C11_split_partition** — for ANY in-range choice functions (seeds, next, group), `split`
+never panics and its two groups are a partition (as multisets) of the overfull node's entries,
+both non-empty. -/
+theorem C11_split_partition {H : Heur} (hH : H.InRange) (minC : Nat) (es : List (Entry O))
+    (h2 : 2 ≤ es.length) :
+    ∃ l r, splitEntries H minC es = .ok (l, r) ∧ (l ++ r).Perm es ∧ l ≠ [] ∧ r ≠ [] :=
+  splitEntries_spec hH minC es h2
+
+/-- **C11_goHeur_inRange** — the exact transcription of the Go heuristics (chooseNode, pickSeeds,
+pickNext) answers in range, so all theorems apply to the executable model that is compared with
+the real code on every run. -/
+theorem C11_goHeur_inRange : goHeur.InRange := goHeur_inRange
+
+/-! ### non-vacuity -/
+
+instance : Bounded Box := ⟨id⟩
+
+/-- the hypotheses of `C11_reachable` are satisfiable: the model with the Go heuristics, (2,4) -/
+example (ops : List (Op Box)) :
+    ∃ t, runOps goHeur (newTree 2 4) ops = .ok t ∧ t.Inv ∧ t.abs.Perm (specRun ops) := by
+  obtain ⟨t, h1, h2, _, h4, _⟩ := C11_reachable C11_goHeur_inRange 2 4 (by omega) (by omega) ops
+  exact ⟨t, h1, h2, h4⟩
+
+example : (newTree 2 4 : Tree Box).Inv := (C11_init 2 4 (by omega) (by omega)).1
+example : (⟨0, 0, 1, 1⟩ : Box).valid = true := by decide +kernel
+example : sharePoint ⟨0, 0, 1, 1⟩ ⟨1, 1, 2, 2⟩ := ⟨1, 1, by unfold Box.has; simp, by unfold Box.has; simp⟩
 
 end GeomV.C11
